@@ -169,7 +169,7 @@ class Equiv:
         """returns False when the generator refused / text unusable (recorded), True otherwise"""
         p = self.p
         try:
-            s, box, ins, outs, extra = self.setup_py()
+            s, box, ins, outs, extra = self.setup_py(wrap=False)
         except (AssertionError, Exception) as e:
             if isinstance(e, (Unsupported, common.HarnessError)):
                 raise
@@ -177,11 +177,13 @@ class Equiv:
             p.note('%s: constructor refused: %r' % (p.config, e))
             return False
         if text is None:
+            # the text is requested from the plain circuit: the transpiler reads the source of the leaves' own methods
             text, exc = generate(box)
             if text is None:
                 p.res['refused'] += 1
                 p.note('%s: generator refused: %r' % (p.config, exc))
                 return False
+        symsim.instrument(s, self.rec)
         self.text = text
         p.res['programs'] += 1
         try:
